@@ -19,7 +19,7 @@ callees are resolved by the real overload resolution.
 import collections
 import re
 
-from rkstatic.x_vecexpr import (COMPS, FnView, Formula, Poly, commute, flatten, poly, show, strip_casts, subst,
+from rkstatic.x_vecexpr import (COMPS, FnView, Formula, Poly, calls_in, commute, flatten, poly, show, strip_casts, subst,
                                 tclean, tkey, tparse, unknowns, vecshape)
 
 LEVEL = 'other'
@@ -1052,6 +1052,12 @@ def classify(tu, f, s):
         op = {'reduce_add': '+', 'reduce_mul': '*', 'reduce_min': 'min', 'reduce_max': 'max'}[name]
         if n:
             return 'fold', lambda res, s, v: _ret_fold(res, s, v, op, lambda k: A(0, k), n, name)
+
+        def generic_fold(res, s, v):
+            t = single_return(v)
+            if t is None or not delegates_to_member(res, s, t, op, name):
+                res.und(R3, '%s over a generic component count: body is not a delegation to the member fold' % name)
+        return 'fold', generic_fold
     if name == 'length' and kinds == ['vec']:
         e = ('call', 'sqrt', (('call', 'dot', (('p', 0), ('p', 0))),))
         return 'derived function', lambda res, s, v: fam_term(res, s, v, e, 'length')
@@ -1074,10 +1080,28 @@ def classify(tu, f, s):
     return None, None
 
 
+MEMBER_FOLD = {'+': 'sum', '*': 'product'}
+
+
+def delegates_to_member(res, s, t, op, what):
+    """`return v.sum()` / `return v.product()`: the free reduction takes the verdict of the member fold (decided per shape)"""
+    t = strip_casts(t)
+    if t[0] == 'mcall' and not t[3] and t[2] == ('p', 0) and t[1] in MEMBER_FOLD.values() and not s.rec:
+        if MEMBER_FOLD.get(op) == t[1]:
+            res.ok(R3, '%s forwards to the member %s(), whose fold is decided for each shape (member fold)' % (what, t[1]))
+        else:
+            res.bad(R3, '%s forwards to the member %s(), which folds with `%s`, not with `%s`' % (
+                what, t[1], [k for k, m in MEMBER_FOLD.items() if m == t[1]][0], op), 'fold-delegation')
+        return True
+    return False
+
+
 def _ret_fold(res, s, v, op, leaf, n, what, cast=False):
     t = single_return(v)
     if t is None:
         res.und(R3, '%s: body is not a single return' % what)
+        return
+    if delegates_to_member(res, s, t, op, what):
         return
     if cast:
         # every leaf must be the conversion of one component to the (wider) result type
@@ -1111,7 +1135,62 @@ def pattern_of(tu, f, by_loc):
     return f
 
 
-def analyse(ctx, tu, label=''):
+IR_PREFIX = {'operator()': 'less', 'reduce_add': 'radd', 'reduce_mul': 'rmul', 'reduce_min': 'rmin', 'reduce_max': 'rmax',
+             'dot': 'dot', 'operator==': 'eq', 'operator!=': 'ne', 'anyLessThan': 'anylt', 'sum': 'sum', 'product': 'product',
+             'min': 'min', 'max': 'max', 'cross': 'cross'}
+IR_TYPES = {'int': 'i', 'float': 'f', 'long': 'l', 'double': 'd'}
+
+
+def ir_cover(s):
+    """identity ids of drivers/c04_alg_vec.cpp that decide this function (all of them must hold), or None"""
+    if s.rec == 'std::less' and s.name == 'operator()':
+        pre, sh = 'less', s.shape
+    elif s.rec == 'rkcommon::math::vec_t' and s.name in ('sum', 'product'):
+        pre, sh = s.name, s.shape
+    elif not s.rec and s.name in IR_PREFIX and s.params and s.params[0]['k'] == 'vec':
+        pre, sh = IR_PREFIX[s.name], s.params[0]['sh']
+        if s.name == 'operator()':
+            return None
+    else:
+        return None
+    if sh is None:
+        return None
+    ns = [sh['n']] if isinstance(sh['n'], int) else [2, 3, 4]
+    if pre == 'cross':
+        ns = [3]
+    shapes = []
+    for n in ns:
+        if n == 3 and not isinstance(sh['a'], bool):
+            shapes += ['3', '3a']
+        elif n == 3 and sh['a'] is True:
+            shapes.append('3a')
+        elif isinstance(sh['a'], bool) and sh['a'] is True:
+            return None
+        else:
+            shapes.append(str(n))
+    t = IR_TYPES.get(sh['elem'])
+    types = [t] if t else ['i', 'f', 'l', 'd']
+    return ['%s_%s%s' % (pre, ty, shp) for ty in types for shp in shapes]
+
+
+def decided_by_ir(res, s, ir):
+    """if the AST rules left the function undecided (no violation) and every identity covering it holds on the IR, replace
+    the undecided results by one obligation that says so"""
+    if ir is None or any(it[0] == 'violation' for it in res.items) or not any(it[0] == 'undecided' for it in res.items):
+        return False
+    need = ir_cover(s)
+    if not need or any(ir.get(i) != 'ok' for i in need):
+        return False
+    why = '; '.join(it[2] for it in res.items if it[0] == 'undecided')[:200]
+    rule = [it[1] for it in res.items if it[0] == 'undecided'][0]
+    res.items = [it for it in res.items if it[0] != 'undecided']
+    res.ok(rule, 'decided by the IR cross-check (R-C04-6) for the instantiations the driver covers: identities %s equal the '
+                 'per-component definition; the body itself is outside the AST normal forms (%s), so other element types are '
+                 'covered only through these instantiations' % (', '.join(need[:6]) + (' ... (%d)' % len(need) if len(need) > 6 else ''), why))
+    return True
+
+
+def analyse(ctx, tu, label='', ir=None):
     fams = collections.Counter()
     fams_typed = collections.Counter()
     unclassified = []
@@ -1123,6 +1202,7 @@ def analyse(ctx, tu, label=''):
             if f['dep']:
                 by_loc.setdefault((f['f'], f['l'], d.get('name')), f)
     covered = set()
+    callers = []
     for f in vec_h_functions(tu):
         s = signature(tu, f)
         fam, fn = classify(tu, f, s)
@@ -1139,9 +1219,7 @@ def analyse(ctx, tu, label=''):
             inst = '[%s] %s' % (label.strip(), inst)
         loc = tu.fn_loc(f)
         if fam is None:
-            unclassified.append((inst, loc))
-            ctx.undecided(R1, inst, 'function of vec.h not classified into any family (name/signature not recognised): '
-                                    'extend the classifier', loc)
+            unclassified.append((inst, loc, s.name, f))
             continue
         if level == 'typed' and tu.body(f) is None:
             # instantiated inside a template whose primary lives outside the analysed roots (std::less): the
@@ -1169,6 +1247,11 @@ def analyse(ctx, tu, label=''):
             n_typed += 1
             if not any(it[0] != 'ok' for it in res.items):
                 typed_callee_check(res, s, v, tu, f, fam)
+        decided_by_ir(res, s, ir)
+        try:
+            callers.append((inst, calls_in(tuple(v.body())), all(it[0] == 'ok' for it in res.items)))
+        except Exception:
+            pass
         for status, rule, detail, kd in res.items:
             if status == 'ok':
                 ctx.ok(rule, inst, detail, loc)
@@ -1176,6 +1259,19 @@ def analyse(ctx, tu, label=''):
                 ctx.undecided(rule, inst, detail, loc)
             else:
                 ctx.violation(rule, inst, detail, loc, key='%s|%s|%s|%s' % (rule, VEC_H, ksig, kd))
+    # functions the classifier does not know: helpers take the verdict of the classified functions that call them
+    still = []
+    for inst, loc, name, f in unclassified:
+        users = [(ci, okk) for ci, names, okk in callers if name in names]
+        if users and all(okk for ci, okk in users):
+            ctx.ok(R3, inst, 'helper function (not part of the vec_t operator set): called by %s, whose results are decided with '
+                             'this helper in place' % ', '.join(sorted({ci for ci, _ in users})[:3]), loc)
+            fams['helper (decided through its callers)'] += 1
+        else:
+            still.append((inst, loc))
+            why = ('its callers are not decided' if users else 'name/signature not recognised and no classified function calls it')
+            ctx.undecided(R1, inst, 'function of vec.h not classified into any family (%s): extend the classifier' % why, loc)
+    unclassified = still
     return fams, fams_typed, unclassified, n_pat, n_typed, covered, by_loc
 
 
@@ -1249,6 +1345,7 @@ def ir_identities(ctx, rule, unit, anchor_file, minimum, precondition=None):
         ctx.assume(a)
     names = sorted(n for n in mod.functions if n.startswith('L_'))
     n = 0
+    status = {}
     for ln in names:
         ident = ln[2:]
         inst = 'identity %s (%s)' % (ident, unit)
@@ -1287,7 +1384,9 @@ def ir_identities(ctx, rule, unit, anchor_file, minimum, precondition=None):
                 break
         if not bad:
             ctx.ok(rule, inst, '%d output slot(s) identical to the scalar definition' % len(A), loc)
+            status[ident] = 'ok'
     ctx.floor(rule, n, minimum, 'identity pairs in %s' % unit)
+    return status
 
 
 R6 = 'R-C04-6'
@@ -1314,9 +1413,10 @@ def run(ctx):
         jobs.append(dict(unit='drivers/c04_vec.cpp', config='TBB', std='gnu++17'))
         jobs.append(dict(unit='drivers/c04_vec.cpp', config='DEBUG', simd=False))
     tus = ctx.front.parse_many(jobs)
+    ir = ir_identities(ctx, R6, 'drivers/c04_alg_vec.cpp', VEC_H, 400) or {}
     for i, tu in enumerate(tus):
         label = '' if i == 0 else ' ' + ('%s%s' % (jobs[i].get('std', ''), '' if jobs[i].get('simd', True) else 'NO_SIMD'))
-        fams, fams_typed, uncl, n_pat, n_typed, covered, by_loc = analyse(ctx, tu, label)
+        fams, fams_typed, uncl, n_pat, n_typed, covered, by_loc = analyse(ctx, tu, label, ir)
         nl = check_layout(ctx, tu)
         if i == 0:
             total = sum(fams.values()) + len(uncl)
@@ -1334,7 +1434,6 @@ def run(ctx):
             per_rule = collections.Counter(o['rule'] for o in ctx.obl)
             for r, mn in ((R1, 600), (R2, 600), (R3, 220), (R4, 120), (R5, 200)):
                 ctx.floor(r, per_rule[r], mn, 'rule instances on the pinned tree')
-    ir_identities(ctx, R6, 'drivers/c04_alg_vec.cpp', VEC_H, 400)
     # compile-time witnesses
     for comp in (['clang++'] + (['g++'] if ctx.tier == 'thorough' else [])):
         rc, err = ctx.front.compile_check('witness/c04_layout.cpp', compiler=comp)
